@@ -10,6 +10,8 @@ slotop, use, repo), `depset{cs}`.
 Values: `str{s}`, `strs{xs}`, `tuple{xs}`, `pkg{fields:[[name,V]…], ver:null|{ver,rev}}`, `other{id}`.
 
 * `c07.pair {a,b}` → `{eq, eqrev, hk, wfa, wfb}`
+* `c07.build {k, t, n, init:[R…], ops:[{"op":"hash"} | {"op":"add","rs":[R…]} | {"op":"finalize"}]}` → `{oks:[bool…], finalized,
+  count, cached, cachedIsFinal}`: which calls succeed (false = TypeError) and the state of the node afterwards
 * `c07.match {r, vals:[V…]}` → list of booleans, or `"opaque"` when `r` contains a primitive the driver cannot
   evaluate (regular expression, user function, identity object, atom, flattening, DepSet, `str()` of a non-string).
 -/
@@ -126,6 +128,25 @@ def handle : Handler := fun cmd j =>
     let b ← (j.getObjVal? "b").toOption >>= parseR
     pure (Json.mkObj [("eq", toJson (eqv a b)), ("eqrev", toJson (eqv b a)),
       ("hk", toJson (hkEq (hashKey a) (hashKey b))), ("wfa", toJson (wf a)), ("wfb", toJson (wf b))])
+  | "c07.build" => do
+    let k ← (getStr j "k") >>= kindOf
+    let t ← getNat j "t"
+    let n ← getBool j "n"
+    let init ← (← getArr j "init").mapM parseR
+    let ops ← (← getArr j "ops").mapM fun o => do
+      match ← getStr o "op" with
+      | "hash" => pure BOp.hash
+      | "finalize" => pure BOp.finalize
+      | "add" => do pure (BOp.add (← (← getArr o "rs").mapM parseR))
+      | _ => none
+    let (b, oks) := ops.foldl (fun (acc : Builder × List Bool) op =>
+      let r := bstep k t n acc.1 op
+      (r.1, acc.2 ++ [r.2])) (⟨init, false, none⟩, [])
+    pure (Json.mkObj [("oks", toJson oks), ("finalized", toJson b.finalized), ("count", toJson b.cs.length),
+      ("cached", toJson b.cached.isSome),
+      ("cachedIsFinal", match b.cached with
+        | some h => toJson (hkEq h (hashKey (.bool k t n b.cs)))
+        | none => Json.null)])
   | "c07.match" => do
     let r ← (j.getObjVal? "r").toOption >>= parseR
     let vals ← (← getArr j "vals").mapM parseV
